@@ -55,6 +55,8 @@ func execCase(c *wire.Case) (res *wire.Result) {
 		opRunFiles(c, res)
 	case "reader":
 		opReader(c, res)
+	case "readerbig":
+		opReaderBig(c, res)
 	case "glob":
 		opGlob(c, res)
 	case "hist":
@@ -1282,4 +1284,81 @@ func lastNum(ms engine.Matches) int {
 		return -1
 	}
 	return ms[len(ms)-1].MatchNumber
+}
+
+// opReaderBig: a seek/read history on a file too large to hold in memory (a sparse file of several GiB written only
+// around a few places): what files.ReaderFromFile returns is compared with what the operating system returns for the
+// same place through an independent descriptor (pread). Offsets cluster around the written places c.Offsets.
+func opReaderBig(c *wire.Case, res *wire.Result) {
+	counters := map[string]int{}
+	res.Counters = counters
+	raw, err := os.Open(c.Path)
+	if err != nil {
+		res.Mismatch = "harness: " + err.Error()
+		return
+	}
+	defer raw.Close()
+	st, _ := raw.Stat()
+	size := st.Size()
+	fr := files.ReaderFromFile(c.Path)
+	defer fr.Close()
+	if int64(fr.Size()) != size {
+		res.Mismatch = fmt.Sprintf("Size()=%d want %d", fr.Size(), size)
+		return
+	}
+	truth := func(off int64, l int) string {
+		if l <= 0 || off < 0 || off+int64(l) > size {
+			return ""
+		}
+		b := make([]byte, l)
+		if _, err := raw.ReadAt(b, off); err != nil {
+			return "\x00harness-read-error:" + err.Error()
+		}
+		return string(b)
+	}
+	rng := &splitmix{c.Seed}
+	for i := 0; i < c.Ops; i++ {
+		base := c.Offsets[rng.intn(len(c.Offsets))]
+		off := base + int64(rng.intn(8192)) - 4096
+		if rng.intn(6) == 0 {
+			off = base + int64(rng.intn(64)) - 32
+		}
+		if off < 0 {
+			off = 0
+		}
+		if off > size {
+			off = size
+		}
+		l := 1 + rng.intn(64)
+		switch rng.intn(8) {
+		case 0:
+			l = 4096 + rng.intn(3) - 1
+		case 1:
+			l = 1 + rng.intn(9000)
+		case 2:
+			l = 1
+		}
+		var got string
+		if rng.intn(2) == 0 {
+			got = fr.ReadAt(l, int(off))
+			counters["readat"]++
+		} else {
+			fr.Seek(int(off))
+			got = fr.Read(l)
+			counters["seek_read"]++
+		}
+		want := truth(off, l)
+		if got != want {
+			res.Mismatch = fmt.Sprintf("op#%d at offset %d (place %d %+d), length %d: reader=%q file=%q (size %d)", i, off, base, off-base, l, clip(got), clip(want), size)
+			return
+		}
+		if want != "" {
+			counters["nonempty"]++
+			if off >= 1<<32 {
+				counters["reads_beyond_4GiB"]++
+			} else if off >= 1<<31 {
+				counters["reads_beyond_2GiB"]++
+			}
+		}
+	}
 }
